@@ -215,7 +215,9 @@ class BuildSystem():
 
             molecule = molecules[mol_idx]
 
-            if all(["position" in molecule.nodes[node] for node in molecule.nodes]):
+            # molecules that are ignored are not built and not part of the nonbond matrix
+            if molecule.mol_name in self.ignore or\
+               all(["position" in molecule.nodes[node] for node in molecule.nodes]):
                 mol_idx += 1
                 pbar.update(1)
                 continue
@@ -246,6 +248,12 @@ class BuildSystem():
         # generate the nonbonded matrix wrapping all information about molecular
         # interactions
         self.nonbond_matrix = NonBondEngine.from_topology(self.molecules, self.topology, self.box)
+        # all other steps address molecules by their index in the topology, so the
+        # indices of the filtered list are translated back to topology indices
+        mol_idxs = [mol_idx for mol_idx, molecule in enumerate(self.topology.molecules)
+                    if molecule.mol_name not in self.ignore]
+        self.nonbond_matrix.nodes_to_gndx = {(mol_idxs[mol_idx], node): gndx for (mol_idx, node), gndx
+                                             in self.nonbond_matrix.nodes_to_gndx.items()}
         # apply sampling of persistence length
         sample_end_to_end_distances(self.topology, self.nonbond_matrix)
         # set any other distance and/or position restraints
